@@ -307,12 +307,30 @@ impl Part for ViaPackets {
         use insim::net::{Codec, Mode};
         let want = wires().get(b).copied();
         let codec = Codec::new(Mode::Uncompressed);
-        for (name, ty, len, off) in [("Sta", 5u8, 28usize, 20usize), ("Rst", 17, 28, 8), ("RelayHos", 253, 44, 36)] {
+        // (name, type, length, offset of the track field, surroundings: 0 = zeros, 1 = the host name next to it is a track code,
+        // 2 = the other numeric fields are non-zero)
+        for (name, ty, len, off, ctx) in [("Sta", 5u8, 28usize, 20usize, 0u8), ("Sta", 5, 28, 20, 2), ("Rst", 17, 28, 8, 0), ("Rst", 17, 28, 8, 2), ("RelayHos", 253, 44, 36, 0), ("RelayHos", 253, 44, 36, 1)] {
             let mut f = vec![0u8; len];
             f[0] = len as u8;
             f[1] = ty;
             if name == "RelayHos" {
                 f[3] = 1;
+            }
+            if ctx == 1 {
+                let other = TRACK_VARIANTS[(b[0] as usize * 5 + b[3] as usize) % TRACK_VARIANTS.len()].to_uppercase();
+                f[4..4 + other.len()].copy_from_slice(other.as_bytes());
+            }
+            if ctx == 2 {
+                match name {
+                    // STA: replay speed 1.0, flags, in-game cam, view player, players / connections / finished, race in progress,
+                    // qualifying minutes, laps byte
+                    "Sta" => f[4..20].copy_from_slice(&[0, 0, 0x80, 0x3f, 1, 0, 3, 2, 5, 6, 1, 1, 10, 5, 0, 0]),
+                    // RST: laps, qualifying minutes, players, timing, nodes, finish, splits
+                    _ => {
+                        f[4..8].copy_from_slice(&[5, 10, 12, 0x43]);
+                        f[16..28].copy_from_slice(&[100, 1, 200, 0, 30, 0, 60, 0, 90, 0, 0xff, 0xff]);
+                    },
+                }
             }
             f[off..off + 6].copy_from_slice(b);
             let mut buf = bytes::BytesMut::from(&f[..]);
@@ -350,6 +368,55 @@ impl Part for ViaPackets {
     }
 }
 
+
+/// The track field read through a reader that delivers its bytes piecewise (a BufReader at a buffer boundary, a file, a pipe)
+/// must decode exactly as from a slice.
+pub struct Piecewise;
+impl Part for Piecewise {
+    type Case = [u8; 6];
+    fn name(&self) -> &'static str {
+        "piecewise-readers"
+    }
+    fn check(&self, b: &[u8; 6], ev: &mut Local) -> Result<(), Fail> {
+        use insim_core::binrw::BinRead;
+        use insim_core::track::Track;
+        // the field followed by two more bytes, so that "reads too little / too much" shows in the position
+        let bytes = [b[0], b[1], b[2], b[3], b[4], b[5], 0xAA, 0xBB];
+        let whole = guard(|| {
+            let mut c = std::io::Cursor::new(&bytes[..]);
+            (Track::read_le(&mut c).map(|t| format!("{t:?}")).map_err(|_| ()), c.position())
+        })
+        .map_err(|p| Fail::new("c14:panic", p))?;
+        for pattern in [&[1usize][..], &[2], &[3], &[4, 2], &[5, 1], &[1, 5]] {
+            let got = guard(|| {
+                let mut t = Trickle::new(&bytes[..], pattern);
+                let r = Track::read_le(&mut t).map(|t| format!("{t:?}")).map_err(|_| ());
+                (r, t.inner.position())
+            })
+            .map_err(|p| Fail::new("c14:panic", p))?;
+            ensure!(
+                got.0 == whole.0 && (got.0.is_err() || got.1 == whole.1),
+                "c14:depends-on-how-the-reader-delivers-bytes",
+                "track bytes {:02x?}: from a slice {:?} (position {}), from a reader delivering {pattern:?} bytes per call {:?} (position {})",
+                b,
+                whole.0,
+                whole.1,
+                got.0,
+                got.1
+            );
+        }
+        ev.class(if whole.0.is_ok() { "valid-form" } else { "rejected" });
+        ev.nontrivial(b);
+        Ok(())
+    }
+    fn to_json(&self, c: &[u8; 6]) -> Value {
+        json!({"bytes": hex(c)})
+    }
+    fn from_json(&self, v: &Value) -> Option<[u8; 6]> {
+        unhex(v.get("bytes")?.as_str()?)?.try_into().ok()
+    }
+}
+
 pub fn parts() -> Vec<Box<dyn DynPart>> {
     vec![
         Box::new(Variants),
@@ -358,6 +425,7 @@ pub fn parts() -> Vec<Box<dyn DynPart>> {
         Box::new(Perturbed),
         Box::new(Random),
         Box::new(ViaPackets),
+        Box::new(Piecewise),
     ]
 }
 
@@ -367,7 +435,7 @@ pub fn run(run: &mut Run) {
         "All {} configurations (variant list extracted from the enum declaration at build time; expected code = \
          upper-cased variant name) checked against every accessor table; complete enumeration of the 15.76 M strings \
          of shape [A-Za-z]{{2}}[0-9]{{1,2}}[A-Za-z]? NUL-padded to 6 bytes (decodes iff it is a configuration's wire form); \
-         every single-byte perturbation of every wire form; random 6-byte values. Non-trivial = the value decodes to a \
+         every single-byte perturbation of every wire form; random 6-byte values; the wire forms and a seventh of the perturbations also through STA / RST / HOS frames (in different surroundings) and through readers that deliver the 6 bytes piecewise. Non-trivial = the value decodes to a \
          configuration, is a perturbation of a wire form, or has >= 3 alphanumeric bytes.",
         TRACK_VARIANTS.len()
     );
@@ -407,6 +475,7 @@ pub fn run(run: &mut Run) {
         }
     }
     run.list(&Perturbed, "perturbed-wire-forms", pert);
+    run.list(&Piecewise, "piecewise-readers", via.clone());
     run.list(&ViaPackets, "through-sta-rst-hos-frames", via);
     let alphabet = prop_oneof![
         4 => prop::sample::select(b"ABEFKLORSTUWXY0123456789".to_vec()),
